@@ -170,6 +170,37 @@ def inlined(facts, body, depth=0, stack=(), t1=True, t2=True, same_type=None):
                                          'rv': {'k': 'use', 'op': a}, 'span': t['span']})
                 blk['term'] = {'k': 'goto', 'target': off_b}
                 changed = True
+        # a closure handed to a helper and called there (`wins(&a, &b)`, `f(side)`): once the helper is inlined the closure literal
+        # is visible, and `Fn*::call*(closure, (args..))` is the closure body
+        if t1 and not blk['cleanup'] and t['k'] == 'call' and t.get('target') is not None and depth < MAX_DEPTH and t.get('callee') \
+                and (t['callee'].get('name') in ('call', 'call_mut', 'call_once')) and str(t['callee'].get('trait') or '').startswith('std::ops::Fn') \
+                and len(t['args']) == 2:
+            clo = _closure_through(facts, blocks, t['args'][0], 0)
+            tl = _plain_local(t['args'][1])
+            tds = _defs_of(blocks, tl) if tl is not None else []
+            argops = None
+            if len(tds) == 1 and tds[0][1] == 'stmt' and tds[0][2]['rv'].get('k') == 'agg' and tds[0][2]['rv'].get('agg') == 'tuple':
+                argops = list(tds[0][2]['rv']['ops'])
+            elif t['args'][1].get('k') == 'const':
+                argops = []
+            if clo is not None and argops is not None and clo[1].uid not in stack and clo[1].arg_count == len(argops) + 1:
+                cl, cb = clo
+                cin = inlined(facts, cb, depth + 1, stack + (body.uid,), t1, t2, same_type)
+                B = _Builder(blocks, locals_, t['span'])
+                env_ref = cin.locals[1]['ty'].get('k') == 'ref'
+                env_bind = {'k': 'rv', 'rv': {'k': 'ref', 'mut': bool(cin.locals[1]['ty'].get('mut')), 'place': _pl(cl)}} if env_ref else _cp(cl)
+                mid = B.block()
+                entry, binds, off_l = B.splice(cin, [env_bind] + argops, mid)
+                # the argument tuple is not built any more: its operands go to the closure directly
+                tup_stmt = tds[0][2] if tds else None
+                for b_ in blocks:
+                    if tup_stmt is not None and tup_stmt in b_['stmts']:
+                        b_['stmts'] = [x for x in b_['stmts'] if x is not tup_stmt]
+                blk['stmts'].extend(binds)
+                blocks[mid]['stmts'].append({'k': 'assign', 'place': t['dest'], 'rv': {'k': 'use', 'op': _mv(off_l)}, 'span': t['span']})
+                blocks[mid]['term'] = {'k': 'goto', 'target': t['target']}
+                blk['term'] = {'k': 'goto', 'target': entry}
+                changed = True
         i += 1
     if t2 and unroll_array_loops(blocks, locals_):
         changed = True
@@ -461,6 +492,27 @@ def _defs_of(blocks, local):
 def _plain_local(op):
     if op['k'] in ('copy', 'move') and not op['place']['proj']:
         return op['place']['local']
+    return None
+
+
+def _closure_through(facts, blocks, op, depth):
+    """operand -> (closure local, closure body), following plain moves / copies / borrows back to the closure literal."""
+    if depth > 6 or op.get('k') not in ('copy', 'move'):
+        return None
+    pl = op['place']
+    if any(e['k'] != 'deref' for e in pl['proj']):
+        return None
+    ds = _defs_of(blocks, pl['local'])
+    if len(ds) != 1 or ds[0][1] != 'stmt':
+        return None
+    rv = ds[0][2]['rv']
+    if rv['k'] == 'agg' and rv.get('agg') == 'closure':
+        cb = facts.by_uid.get(rv['uid'])
+        return (pl['local'], cb) if cb is not None else None
+    if rv['k'] == 'use':
+        return _closure_through(facts, blocks, rv['op'], depth + 1)
+    if rv['k'] == 'ref' and all(e['k'] == 'deref' for e in rv['place']['proj']):
+        return _closure_through(facts, blocks, {'k': 'copy', 'place': rv['place']}, depth + 1)
     return None
 
 
